@@ -121,7 +121,7 @@ PROPS = {
         "timeout": 2400,
     },
     "C18": {
-        "lean_modules": ["JrpcProofs.Props.C18", "JrpcProofs.Lemmas.Corr", "JrpcProofs.Facts.Corr", "JrpcProofs.Props.Sweep", "JrpcProofs.Facts.Sweep", "JrpcProofs.Facts.OneShot"],
+        "lean_modules": ["JrpcProofs.Props.C18", "JrpcProofs.Lemmas.Corr", "JrpcProofs.Facts.Corr", "JrpcProofs.Props.Sweep", "JrpcProofs.Facts.Sweep", "JrpcProofs.Facts.OneShot", "JrpcProofs.Facts.Stream"],
         "assumptions": [
             "hooks only delay goroutines; two log entries written by different goroutines around one channel rendezvous may come in either order and are reconciled by the replayer (tau steps are counted in the evidence)",
             "ids of calls that are inside doRequest at the same time differ (id counter; int64 to float64 keys are injective below 2^53 calls)",
@@ -130,7 +130,7 @@ PROPS = {
         "timeout": 2400,
     },
     "C06": {
-        "lean_modules": ["JrpcProofs.Props.C06", "JrpcProofs.Facts.Cancel", "JrpcProofs.Facts.Corr", "JrpcProofs.Facts.Frames"],
+        "lean_modules": ["JrpcProofs.Props.C06", "JrpcProofs.Facts.Cancel", "JrpcProofs.Facts.Corr", "JrpcProofs.Facts.Frames", "JrpcProofs.Facts.Stream"],
         "assumptions": [
             "the peer is honest: it writes xrpc.cancel [id] only for a caller (or subscription) whose context was cancelled; the client side of that is tied by the regenerated skeletons of doRequest and handleCtxAsync",
             "over HTTP the guarantee is net/http's request-context cancellation; the library-side facts (hreq.WithContext(ctx), ctx := r.Context()) are observed by the HTTP scenario",
